@@ -301,7 +301,14 @@ impl<'a, 'tcx> H<'a, 'tcx> {
                     ("body", self.expr(body.value)),
                 ]
             }
-            ExprKind::Block(b, _) => return self.block_with_ln(b, e),
+            ExprKind::Block(b, label) => {
+                let J::O(mut o) = self.block_with_ln(b, e) else { unreachable!() };
+                if label.is_some() {
+                    // target of `break 'label value`
+                    o.push(("lbl", J::N(b.hir_id.local_id.as_usize() as i128)));
+                }
+                return J::O(o);
+            }
             ExprKind::Assign(l, r, _) => vec![("k", J::s("assign")), ("l", self.expr(l)), ("r", self.expr(r))],
             ExprKind::AssignOp(op, l, r) => vec![
                 ("k", J::s("assignop")),
@@ -325,8 +332,11 @@ impl<'a, 'tcx> H<'a, 'tcx> {
                 ("m", J::B(matches!(m, hir::Mutability::Mut))),
                 ("e", self.expr(x)),
             ],
-            ExprKind::Break(_, x) => {
+            ExprKind::Break(dest, x) => {
                 let mut o = vec![("k", J::s("break"))];
+                if let Ok(t) = dest.target_id {
+                    o.push(("to", J::N(t.local_id.as_usize() as i128)));
+                }
                 if let Some(x) = x {
                     o.push(("e", self.expr(x)));
                 }
